@@ -47,6 +47,9 @@ def dispatch(pid, tier, replay):
     if pid == "C12":
         import field_checks
         return field_checks.c12(tier)
+    if pid == "C18":
+        import pdfmap_checks
+        return pdfmap_checks.c18(tier)
     raise common.MachineryError("no check for " + pid)
 
 
